@@ -493,6 +493,72 @@ fn run_epoch_pooling(cx: &mut CaseCx, case: &Value) {
   cx.outcome(format!("t={}", t));
 }
 
+
+/// Coalition census: for several thousand measurements, every coalition of t-1 reports interpolates its own
+/// share points and follows the chain key -> encrypted message -> payload key (a sharing polynomial that
+/// loses a coefficient once in a few hundred measurements shows here; for t = 2 the candidate is the single
+/// share's value itself)
+fn run_coalition_census(cx: &mut CaseCx, case: &Value) {
+  let t = case["t"].as_u64().unwrap() as u32;
+  let lo = case["lo"].as_u64().unwrap();
+  let epoch = b"census".to_vec();
+  let aux = Some(b"census aux".to_vec());
+  for i in lo..lo + 400 {
+    let meas = format!("measurement-{}", i).into_bytes();
+    let rnd = local_randomness(&meas, &epoch, t);
+    let mut msgs = vec![];
+    for k in 0..t {
+      getrandom::verif::set_group(k + 1);
+      match gen_report(&meas, &epoch, t, &rnd, &aux) {
+        Ok(m) => msgs.push(m),
+        Err(_) => break,
+      }
+    }
+    if msgs.len() != t as usize {
+      continue;
+    }
+    let parsed: Vec<crate::refmodel::AdssShare> = msgs.iter().filter_map(|m| crate::refmodel::parse_adss(&m.share.to_bytes())).collect();
+    if parsed.len() != t as usize || parsed.iter().any(|p| p.s.y.is_empty()) {
+      continue;
+    }
+    let open_c = |k: &[u8]| -> Vec<u8> {
+      let mut st = strobe_rs::Strobe::new(b"adss encrypt", strobe_rs::SecParam::B128);
+      st.key(k, false);
+      let mut m = parsed[0].c.clone();
+      st.recv_enc(&mut m, false);
+      m
+    };
+    let pl = payload(&meas, &aux);
+    // replica validation with the full set (first y column)
+    let all: Vec<(num_bigint::BigUint, num_bigint::BigUint)> = parsed.iter().map(|p| (p.s.x.clone(), p.s.y[0].clone())).collect();
+    let shares: Vec<sta_rs::Share> = msgs.iter().map(|m| m.share.clone()).collect();
+    let k_true = crate::refmodel::le24(&crate::refmodel::lagrange_at_zero(&all));
+    if recover_msg(&shares).ok().and_then(|r| r.ok()) != Some(open_c(&k_true[..16])) {
+      cx.count("chain_replica_unavailable", 1);
+      continue;
+    }
+    cx.eval();
+    cx.nontrivial(i ^ ((t as u64) << 32));
+    // every coalition of t-1 reports (drop one)
+    for drop in 0..t as usize {
+      let pts: Vec<(num_bigint::BigUint, num_bigint::BigUint)> = (0..t as usize).filter(|&j| j != drop).map(|j| all[j].clone()).collect();
+      if pts.is_empty() {
+        continue;
+      }
+      let kk = crate::refmodel::le24(&crate::refmodel::lagrange_at_zero(&pts));
+      let r0 = open_c(&kk[..16]);
+      let mut key = vec![0u8; 16];
+      sta_rs::derive_ske_key(&r0, &epoch, &mut key);
+      if msgs[0].ciphertext.decrypt(&key, "star_encrypt") == pl {
+        cx.viol("C03/sub-threshold-coalition-opens-payload/census", format!("measurement-{} (threshold {}): {} report(s) suffice to open the payload and read the associated data - interpolating their share points already gives the sharing key (this measurement's polynomial has degree < t-1)", i, t, t - 1), json!({"measurement": format!("measurement-{}", i), "t": t, "coalition_size": t - 1}));
+        return;
+      }
+    }
+    cx.count("census_coalitions_sealed", 1);
+  }
+  cx.outcome(format!("t={}", t));
+}
+
 /// every associated-data length 0..=420 for two measurement lengths: nothing of it in the clear
 fn run_length_sweep(cx: &mut CaseCx, case: &Value) {
   let lo = case["lo"].as_u64().unwrap() as usize;
@@ -810,6 +876,21 @@ pub fn spec() -> PropSpec {
         },
         run: run_epoch_pooling,
         min_counts: &[("pools_sealed", 1000)],
+      },
+      Check {
+        name: "coalition-census",
+        rule: "2000 measurements per threshold (t in {2,3}; thorough 8000): every coalition of t-1 of the t reports interpolates its share points (for t = 2: the single share's value) and follows the chain sharing key -> encrypted message -> payload key (self-validating replica): the payload stays sealed for every measurement",
+        gen: |tier| {
+          let mut v = vec![];
+          for t in [2u64, 3] {
+            for c in 0..(if tier.thorough() { 20u64 } else { 5 }) {
+              v.push(json!({"t": t, "lo": c * 400}));
+            }
+          }
+          v
+        },
+        run: run_coalition_census,
+        min_counts: &[("census_coalitions_sealed", 3500)],
       },
       Check {
         name: "cross-aggregation",
